@@ -101,7 +101,7 @@ class Obligation:
 # in functions that are unchanged or lightly edited since the confirmed baseline (Report._shape_rule_scope).
 #   property -> list of (rule prefix, detail prefix or None)
 ROBUST = {
-    "C01": [("R01.2", None), ("R01.3", "op:")],
+    "C01": [("R01.2", None), ("R01.3", "op:"), ("R01.5", "helper-subscript")],
     "C02": [("R02.1", "term=D f"), ("R02.1", "constructor-literal"), ("R02.5", "container-branch"), ("R02.5", "element-term"), ("R02.5", "vector-identity-by-name"), ("R02.5", "same-vector-guard")],
     "C03": [("R03.4", None), ("R03.2", None), ("R03.3", None)],
     "C04": [("R04.1", None), ("R04.2", None), ("R04.3", None), ("R04.4", "conjunction"), ("R04.4", "sentinel"), ("R04.4", "degree-cache-writer"), ("R04.4", "raw-degree-cache-read")],
